@@ -317,8 +317,12 @@ func runRevCaseFull(c *revCase) (string, string, map[string]any, []certOut, bool
 		rt.onReq, wf.onReq = hook, hook
 	}
 	// C17: injected panics and the schedule barrier
-	for i, v := range c.PanicAt {
-		v := v
+	for i, vs := range c.PanicAt {
+		// panic values of different dynamic types: a string at even positions, an error at odd ones
+		var v any = vs
+		if i%2 == 1 {
+			v = errors.New(vs)
+		}
 		for _, u := range xs[i].OCSPServer {
 			rt.handlers[u] = func(*http.Request) (*http.Response, error) { panic(v) }
 		}
@@ -457,6 +461,12 @@ func runRevCaseFull(c *revCase) (string, string, map[string]any, []certOut, bool
 			co.Result, co.Method = int(r.Result), int(r.RevocationMethod)
 			var srv []string
 			for _, s := range r.ServerResults {
+				if s == nil { // a hole in the list: reported as an entry for a URL nobody named
+					co.Servers = append(co.Servers, [2]int{0, -1})
+					srv = append(srv, "(SRes RUnknown (-1))")
+					desc["nil_server_result"] = fmt.Sprintf("certificate %d", i)
+					continue
+				}
 				uid := 0
 				emptyNamed := s != nil && s.Server == "" && i < len(xs) && containsStr(xs[i].OCSPServer, "")
 				if s.Server != "" || emptyNamed { // the empty string may itself be a responder URI the certificate names
